@@ -8,5 +8,6 @@ CONSTANTS
   GapFix = FALSE
   CertRounds = {1}
   Direct = TRUE
+  MidCrash = FALSE
   Timeouts = FALSE
 PROPERTY NoRerunCtl
